@@ -498,6 +498,172 @@ Proof.
   - intros r c0. rewrite nth_map_map_mod. apply Z.mod_pos_bound. exact Hm.
 Qed.
 
+(* ------------------------------------------------------------------ *)
+(** * 5b. entry-wise reading of "product = identity" (used by MatrixMC.v for the left inverse) *)
+
+Definition mentry (A : list (list Z)) (i j : nat) : Z := nth j (nth i A []) 0.
+Definition dotZ (n : nat) (a b : nat -> nat -> Z) (i k : nat) : Z :=
+  zsum (map (fun j => a i j * b j k) (seq 0 n)).
+Definition delta (i k : nat) : Z := if (i =? k)%nat then 1 else 0.
+
+Lemma nth2_map_seq n (F : nat -> nat -> Z) i k : (i < n)%nat -> (k < n)%nat ->
+  nth k (nth i (map (fun i => map (fun k => F i k) (seq 0 n)) (seq 0 n)) []) 0 = F i k.
+Proof.
+  intros Hi Hk.
+  rewrite (nth_map_lt' (fun i => map (fun k => F i k) (seq 0 n)) (seq 0 n) i 0%nat []) by (rewrite seq_length; exact Hi).
+  rewrite seq_nth by exact Hi. cbn [Nat.add].
+  rewrite (nth_map_lt' (fun k => F i k) (seq 0 n) k 0%nat 0) by (rewrite seq_length; exact Hk).
+  rewrite seq_nth by exact Hk. reflexivity.
+Qed.
+
+Lemma map2_seq_eq_iff n (F G : nat -> nat -> Z) :
+  map (fun i => map (fun k => F i k) (seq 0 n)) (seq 0 n) = map (fun i => map (fun k => G i k) (seq 0 n)) (seq 0 n)
+  <-> forall i k, (i < n)%nat -> (k < n)%nat -> F i k = G i k.
+Proof.
+  split.
+  - intros H i k Hi Hk. rewrite <- (nth2_map_seq n F i k Hi Hk), <- (nth2_map_seq n G i k Hi Hk), H. reflexivity.
+  - intros H. apply map_ext_in. intros i Hi. apply in_seq in Hi.
+    apply map_ext_in. intros k Hk. apply in_seq in Hk. apply H; lia.
+Qed.
+
+Lemma mat_mul_eye_iff modulo n A B :
+  mat_mul modulo n A B = eye n <->
+  forall i k, (i < n)%nat -> (k < n)%nat ->
+    dot_mod modulo (map (fun j => (mentry A i j, mentry B j k)) (seq 0 n)) = delta i k.
+Proof. unfold mat_mul, eye. apply map2_seq_eq_iff. Qed.
+
+(* modulo 0: arithmetic in Z/2^64 (signed representatives) *)
+Lemma mat_mul0_eye_iff n A B :
+  mat_mul 0 n A B = eye n <->
+  forall i k, (i < n)%nat -> (k < n)%nat -> wrap (dotZ n (mentry A) (mentry B) i k) = delta i k.
+Proof.
+  rewrite mat_mul_eye_iff. unfold dotZ.
+  split; intros H i k Hi Hk; specialize (H i k Hi Hk); rewrite dot_mod_zero, map_map in *; exact H.
+Qed.
+
+(* with a modulus, reduced operands and no overflow: arithmetic in Z/m *)
+Lemma mat_mul_mod_eye_iff modulo n A B :
+  2 <= modulo <= 2 ^ 31 -> Z.of_nat n < 2 ^ 32 ->
+  (forall r c0, (r < n)%nat -> (c0 < n)%nat -> 0 <= mentry A r c0 < modulo) ->
+  (forall r c0, (r < n)%nat -> (c0 < n)%nat -> 0 <= mentry B r c0 < modulo) ->
+  (mat_mul modulo n A B = eye n <->
+   forall i k, (i < n)%nat -> (k < n)%nat -> dotZ n (mentry A) (mentry B) i k mod modulo = delta i k).
+Proof.
+  intros Hm Hn HA HB. rewrite mat_mul_eye_iff. unfold dotZ.
+  assert (forall i k, (i < n)%nat -> (k < n)%nat ->
+            dot_mod modulo (map (fun j => (mentry A i j, mentry B j k)) (seq 0 n)) =
+            zsum (map (fun j => mentry A i j * mentry B j k) (seq 0 n)) mod modulo) as E.
+  { intros i k Hi Hk. rewrite dot_mod_exact; auto.
+    - rewrite map_map. reflexivity.
+    - apply Forall_forall. intros [a b] Hin. apply in_map_iff in Hin as (j & Hj & Hin). apply in_seq in Hin.
+      inversion Hj; subst. cbn [fst snd]. split; [apply HA|apply HB]; lia.
+    - rewrite map_length, seq_length. exact Hn. }
+  split; intros H i k Hi Hk; specialize (H i k Hi Hk); rewrite E in * by assumption; exact H.
+Qed.
+
+(* ------------------------------------------------------------------ *)
+(** * 5c. entry-wise reading of "apply M' after M" on flat row-major states *)
+
+Lemma dotZ_ext n a b b' i k :
+  (forall j, (j < n)%nat -> b j k = b' j k) -> dotZ n a b i k = dotZ n a b' i k.
+Proof.
+  intros H. unfold dotZ. f_equal. apply map_ext_in. intros j Hj. apply in_seq in Hj.
+  rewrite H by lia. reflexivity.
+Qed.
+
+Lemma flat_forall n m (P : Z -> Prop) (T : list Z) :
+  (forall i k, (i < n)%nat -> (k < m)%nat -> P (nth (i * m + k) T 0)) ->
+  forall idx, (idx < n * m)%nat -> P (nth idx T 0).
+Proof.
+  intros H idx Hidx. assert (m <> 0)%nat as Hm0 by (intros ->; lia).
+  pose proof (Nat.div_mod idx m Hm0) as E. rewrite E.
+  replace (m * (idx / m))%nat with (idx / m * m)%nat by lia.
+  apply H.
+  - apply Nat.div_lt_upper_bound; auto. lia.
+  - apply Nat.mod_upper_bound; auto.
+Qed.
+
+Lemma flat_ext n m (S T : list Z) :
+  length S = (n * m)%nat -> length T = (n * m)%nat ->
+  (forall i k, (i < n)%nat -> (k < m)%nat -> nth (i * m + k) S 0 = nth (i * m + k) T 0) -> S = T.
+Proof.
+  intros HS HT H. apply nth_ext with (d := 0) (d' := 0); [lia|]. intros idx Hidx. rewrite HS in Hidx.
+  assert (m <> 0)%nat as Hm0 by (intros ->; lia).
+  pose proof (Nat.div_mod idx m Hm0) as E. rewrite E.
+  replace (m * (idx / m))%nat with (idx / m * m)%nat by lia.
+  apply H.
+  - apply Nat.div_lt_upper_bound; auto. lia.
+  - apply Nat.mod_upper_bound; auto.
+Qed.
+
+Lemma mat_apply0_entry n m M S i k : (i < n)%nat -> (k < m)%nat ->
+  nth (i * m + k) (mat_apply 0 n m M S) 0 = wrap (dotZ n (mentry M) (mat_entry m S) i k).
+Proof. intros Hi Hk. rewrite mat_apply_wrap by auto. reflexivity. Qed.
+
+Lemma mat_apply0_twice_entry n m M M' S i k : (i < n)%nat -> (k < m)%nat ->
+  nth (i * m + k) (mat_apply 0 n m M' (mat_apply 0 n m M S)) 0 =
+  wrap (dotZ n (mentry M') (fun j k => wrap (dotZ n (mentry M) (mat_entry m S) j k)) i k).
+Proof.
+  intros Hi Hk. rewrite mat_apply0_entry by auto. f_equal. apply dotZ_ext. intros j Hj.
+  unfold mat_entry at 1. apply mat_apply0_entry; auto.
+Qed.
+
+Lemma mat_apply0_undo_crit n m M M' S :
+  length S = (n * m)%nat -> (forall idx, (idx < n * m)%nat -> in64 (nth idx S 0)) ->
+  (forall i k, (i < n)%nat -> (k < m)%nat ->
+     wrap (dotZ n (mentry M') (fun j k => wrap (dotZ n (mentry M) (mat_entry m S) j k)) i k) = wrap (mat_entry m S i k)) ->
+  mat_apply 0 n m M' (mat_apply 0 n m M S) = S.
+Proof.
+  intros HS Hin H. apply (flat_ext n m); [apply mat_apply_length|exact HS|]. intros i k Hi Hk.
+  rewrite mat_apply0_twice_entry, H by auto. unfold mat_entry. apply wrap_id. apply Hin. nia.
+Qed.
+
+Lemma mat_apply_mod_entry modulo n m M S i k :
+  2 <= modulo <= 2 ^ 31 -> Z.of_nat n < 2 ^ 32 ->
+  (forall r c0, (r < n)%nat -> (c0 < n)%nat -> 0 <= mentry M r c0 < modulo) ->
+  (forall j, (j < n * m)%nat -> 0 <= nth j S 0 < modulo) ->
+  (i < n)%nat -> (k < m)%nat ->
+  nth (i * m + k) (mat_apply modulo n m M S) 0 = dotZ n (mentry M) (mat_entry m S) i k mod modulo.
+Proof. intros Hm Hn HM HS Hi Hk. rewrite mat_apply_exact by auto. reflexivity. Qed.
+
+Lemma mat_apply_mod_bounds modulo n m M S :
+  2 <= modulo <= 2 ^ 31 -> Z.of_nat n < 2 ^ 32 ->
+  (forall r c0, (r < n)%nat -> (c0 < n)%nat -> 0 <= mentry M r c0 < modulo) ->
+  (forall j, (j < n * m)%nat -> 0 <= nth j S 0 < modulo) ->
+  forall j, (j < n * m)%nat -> 0 <= nth j (mat_apply modulo n m M S) 0 < modulo.
+Proof.
+  intros Hm Hn HM HS. apply (flat_forall n m (fun z => 0 <= z < modulo)). intros i k Hi Hk.
+  rewrite mat_apply_mod_entry by auto. apply Z.mod_pos_bound. lia.
+Qed.
+
+Lemma mat_apply_mod_twice_entry modulo n m M M' S i k :
+  2 <= modulo <= 2 ^ 31 -> Z.of_nat n < 2 ^ 32 ->
+  (forall r c0, (r < n)%nat -> (c0 < n)%nat -> 0 <= mentry M r c0 < modulo) ->
+  (forall r c0, (r < n)%nat -> (c0 < n)%nat -> 0 <= mentry M' r c0 < modulo) ->
+  (forall j, (j < n * m)%nat -> 0 <= nth j S 0 < modulo) ->
+  (i < n)%nat -> (k < m)%nat ->
+  nth (i * m + k) (mat_apply modulo n m M' (mat_apply modulo n m M S)) 0 =
+  dotZ n (mentry M') (fun j k => dotZ n (mentry M) (mat_entry m S) j k mod modulo) i k mod modulo.
+Proof.
+  intros Hm Hn HM HM' HS Hi Hk.
+  rewrite mat_apply_mod_entry; auto using mat_apply_mod_bounds.
+  f_equal. apply dotZ_ext. intros j Hj. unfold mat_entry at 1. apply mat_apply_mod_entry; auto.
+Qed.
+
+Lemma mat_apply_mod_undo_crit modulo n m M M' S :
+  2 <= modulo <= 2 ^ 31 -> Z.of_nat n < 2 ^ 32 ->
+  (forall r c0, (r < n)%nat -> (c0 < n)%nat -> 0 <= mentry M r c0 < modulo) ->
+  (forall r c0, (r < n)%nat -> (c0 < n)%nat -> 0 <= mentry M' r c0 < modulo) ->
+  length S = (n * m)%nat -> (forall j, (j < n * m)%nat -> 0 <= nth j S 0 < modulo) ->
+  (forall i k, (i < n)%nat -> (k < m)%nat ->
+     dotZ n (mentry M') (fun j k => dotZ n (mentry M) (mat_entry m S) j k mod modulo) i k mod modulo
+     = mat_entry m S i k mod modulo) ->
+  mat_apply modulo n m M' (mat_apply modulo n m M S) = S.
+Proof.
+  intros Hm Hn HM HM' HL HS H. apply (flat_ext n m); [apply mat_apply_length|exact HL|]. intros i k Hi Hk.
+  rewrite mat_apply_mod_twice_entry, H by auto. unfold mat_entry. apply Z.mod_small. apply HS. nia.
+Qed.
+
 Print Assumptions perm_inverse_map_correct.
 Print Assumptions perm_inverse_map_none.
 Print Assumptions inverted_perms_undo.
